@@ -30,15 +30,38 @@ ASSUMPTIONS = ["OSError from the disk seam is not a text input and is excluded (
 
 WEIRD_STRINGS = ["", "*", " ", "\t", "a b", "A\tB", "\n", "+", "-", "x+", "x-", "0", "-1", "$", "1$",
                  "\x00", "\x7f", "é", "名", "A,B", "a+,b-", "::", "xx:i:", "xx:Z", "VN", "TS", "LN",
-                 "name", "sid", "from_segment", "overlap", "items", "record_type", "field1", "%s", "{}"]
-CORRUPT_CHARS = list("*$+-,:;\t 0Aa~!{}[]\"'\\") + ["\r", "\x00", "é", ""]
+                 "name", "sid", "from_segment", "overlap", "items", "record_type", "field1", "%s", "{}",
+                 # positional field names of every record type
+                 "external", "sid1", "sid2", "slen", "sequence", "from_orient", "to_orient", "pos", "beg1", "end1",
+                 "beg2", "end2", "pid", "gid", "eid", "path_name", "segment_names", "overlaps", "alignment", "disp",
+                 "var", "s_beg", "s_end", "f_beg", "f_end", "to_segment", "content",
+                 # names of instance attributes of a line, of methods and of accessors
+                 "_data", "vlevel", "_vlevel", "_datatype", "_gfa", "_refs", "_virtual", "_version", "validate",
+                 "try_get_xx", "__dict__", "__class__",
+                 # digits that are not ASCII digits (str.isdigit() accepts them, int() does or does not)
+                 "\u00b2", "\u0661\u0662", "\uff11", "\u2460", "1\u00b2",
+                 # longer than Python's limit for int(str)
+                 "1" * 5000]
+CORRUPT_CHARS = list("*$+-,:;\t 0Aa~!{}[]\"'\\") + ["\r", "\x00", "é", "", "\u00b2", "\u0663", "7" * 4500]
 
 
 def corrupt(rng, line):
     """One single-point fault on a record. Returns (kind, new_text)."""
     kind = rng.choice(["replace", "insert", "delete", "dropfield", "dupfield", "tagtype",
-                       "truncate", "blank", "empty", "swapfields", "emptyfield"])
+                       "truncate", "blank", "empty", "swapfields", "emptyfield", "digits", "digits"])
     f = line.split("\t")
+    if kind == "digits":
+        # one run of digits replaced by non-ASCII digits or by more digits than int() converts
+        import re as _re
+        runs = list(_re.finditer(r"[0-9]+", line))
+        if runs:
+            m = rng.choice(runs)
+            new = rng.choice(["\u00b2", "\u0661\u0662", "\uff11\uff12", m.group(0) + "\u00b3", "3" * 4400, "9" * 5000])
+            return kind, line[:m.start()] + new + line[m.end():]
+        # identifiers too
+        if len(f) > 1:
+            f[1] = rng.choice(["\u00b2", "\u0661", "8" * 4400])
+            return kind, "\t".join(f)
     if kind == "replace" and line:
         p = rng.randrange(len(line))
         return kind, line[:p] + rng.choice(CORRUPT_CHARS) + line[p + 1:]
@@ -161,7 +184,8 @@ def gen(streams, tier, i):
                           "l.validate_field", "l.get_datatype", "l.set_datatype", "str", "gfa.validate",
                           "add", "names", "l.str", "l.clone", "l.rename", "select", "to_other",
                           "components", "linear_paths", "multiply",
-                          "seg_component", "cut", "to_obj", "l.to_other", "l.diff", "l.refs", "each.to_other"])
+                          "seg_component", "cut", "to_obj", "l.to_other", "l.diff", "l.refs", "each.to_other",
+                          "l.edit_rm", "l.edit_rm"])
         # graph rewrites on arbitrary (possibly corrupted) graphs -- merge_linear_paths, remove_dead_ends,
         # remove_small_components, group resolution -- take no string argument and are outside C07's
         # quantifier (texts and strings passed to the API); C14/C16/C17 cover them on their own domains
@@ -383,6 +407,24 @@ def api(g, cx, op, st):
         o = cx.call("line.clone()", l.clone)
     elif c == "l.to_other":
         o = cx.call("line.to_gfa1_s/to_gfa2_s", lambda: (l.to_gfa1_s(), l.to_gfa2_s()))
+    elif c == "l.edit_rm":
+        # a positional field of the line is given a string (whatever the outcome), then the line, or a segment,
+        # is removed: an edit must not leave the registry in a state where removal breaks
+        fields = list(l.positional_fieldnames) or ["name"]
+        fn = fields[op["li"] % len(fields)]
+        val = v
+        if op["li"] % 3 == 0:
+            tk = core.call(lambda: sorted(set(t for x in g.lines for t in str(x).replace(" ", "\t").split("\t")
+                                              if 0 < len(t) < 8)))
+            toks = tk.value if tk.ok else []
+            if toks:
+                val = toks[op["li"] % len(toks)]
+        cx.call("line.set(%r,%r)" % (fn, val), l.set, fn, val)
+        segn = g.segment_names
+        if op["li"] % 2 == 0 and segn:
+            o = cx.call("gfa.rm(segment) after edit", g.rm, segn[op["li"] % len(segn)])
+        else:
+            o = cx.call("gfa.rm(line) after edit", g.rm, l)
     elif c == "l.diff":
         o = cx.call("line.diff/==", lambda: (l == lines[0], l.diff(lines[0]) if lines[0].record_type == l.record_type else None))
     elif c == "l.refs":
